@@ -74,6 +74,12 @@ CLAIMS = {
         'technique': 'Lean 4 proof (invariant over all interleavings of a small-step model) + deterministic-scheduler exploration of real threads with log-level correspondence',
         'design_ref': 'DESIGN.md section 5, C20',
     },
+    'C18': {
+        'text': "Lean theorems C18.merge_spec (explicit arguments override, defaulted ones take the default, all six settings), explicit_none_is_a_value, set_changes_given / set_nothing / after_sets (after ANY sequence of set_default_config calls each setting is the last value given for it, indent untouched), entry_points (pprint = pformat ++ end, PrettyPrinter and pretty_repr = pformat), and signatures_agree / shipped_defaults decided over the tables regenerated from /repo's source on every run (pformat, pprint, cpprint take the same six settings = keys of _default_config; set_default_config all but indent). Tied to /repo by random set_default_config sequences x explicit/defaulted subsets x 3 values x {pformat, pprint, cpprint colour-off, PrettyPrinter.pformat/pprint, pretty_repr} x end strings, compared with the model (text, reported defaults, effective settings) and with each other. F15 repaired.",
+        'note': "the stream argument and sys.stdout defaulting are exercised but not modelled; cpprint is compared with colour off only (colour is C16)",
+        'technique': 'Lean 4 proof (configuration algebra, induction over set_default_config sequences, decide over regenerated tables) + translator + differential correspondence',
+        'design_ref': 'DESIGN.md section 5, C18',
+    },
     'C04': {
         'text': "Lean theorems C04.sound / sound_plain (the stack machine's output is a rendering of the document in the reference semantics Lay, for every document, width, ribbon and both strategies), ann_balanced (push/pop well bracketed), render_trim (the renderer only trims trailing whitespace), with lay_normalize (Lay closed under normalisation). The model is tied to /repo by exact comparison of SDoc streams and rendered text on all documents <= 4 (thorough: 5) nodes x 96 configurations plus seeded random documents. The forcing clause for bare hardline is known finding K1.",
         'note': "trusted: Lean kernel; model = code only on the explored inputs; ribbon fractions restricted to float-exact ones; FlatChoice lazy normalisation modelled as a pure function",
